@@ -16,7 +16,7 @@ import traceback
 import aioftp
 import aioftp.client
 
-from . import simnet, vloop
+from . import simnet, vloop, watchdog
 
 CTL = 21
 NOARG = {"raw": "", "off": 0, "wait": True, "cmds": ["epsv", "pasv"], "depth": 0, "parents": True}
@@ -166,7 +166,7 @@ async def perform(client, op, a):
     return 0
 
 
-def run_scenario(sc, budget=200000):
+def _run_scenario(sc, budget=200000):
     loop = vloop.new_loop()
     net = simnet.Net(loop)
     net.ctl_port = CTL
@@ -233,7 +233,7 @@ def run_scenario(sc, budget=200000):
                     res["code"] = int(code) if code.isdigit() else -1
                 except ConnectionResetError:
                     res["kind"] = "CRE"
-                except asyncio.CancelledError:
+                except (asyncio.CancelledError, watchdog.HardHang):
                     raise
                 except Exception as e:
                     res["kind"] = "other"
@@ -268,6 +268,8 @@ def run_scenario(sc, budget=200000):
         log({"ev": "End", "blocked": blocked})
         out["plan"] = pup.realised
         out["errors"] = [str(e.get("message")) + " " + repr(e.get("exception")) for e in loop.errors]
+    except watchdog.HardHang:
+        raise
     except BaseException as ex:
         out["crash"] = "".join(traceback.format_exception(type(ex), ex, ex.__traceback__))[-3000:]
     finally:
@@ -277,6 +279,17 @@ def run_scenario(sc, budget=200000):
         except Exception:
             pass
     return out
+
+
+def run_scenario(sc, budget=200000):
+    """_run_scenario under the wall-clock guard; a client that blocks the thread itself ends as Ret kind 'hardhang'."""
+    if watchdog.POISONED[0]:
+        return {"trace": [{"ev": "End", "blocked": False}], "crash": None, "plan": [], "skipped": True}
+    try:
+        with watchdog.guard():
+            return _run_scenario(sc, budget)
+    except watchdog.HardHang:
+        return {"trace": [{"ev": "Ret", "kind": "hardhang", "code": 0, "n": 0}], "crash": None, "plan": []}
 
 
 SHAPES = ["plain", "epsv", "epsvdead", "pasv", "pasvdead", "mlst"]
